@@ -171,6 +171,9 @@ pub fn run_spec(spec: &Spec) -> CaseOut {
     case.keep_bytes = false;
     case = case.with_sched(spec.sched.clone(), spec.gen_seed);
     let ex = exec_mpc(case);
+    if ex.outcomes.iter().any(crate::props::env_failure) {
+        return CaseOut { key: String::new(), nontrivial: false, ok: true, sample: json!({"environment": "temp-file I/O error"}), end: RunEnd::StepLimit, sig: None, msgs: 0, sched_hash: 0 };
+    }
     let mut ok = ex.end == RunEnd::AllFinished && lib == expected;
     let mut sig = None;
     if lib != expected {
@@ -226,7 +229,7 @@ pub fn run(tier: &str, seed: u64) -> i32 {
         *classes.entry(and_class(spec.ands).to_string()).or_insert(0u64) += 1;
         match &o.end {
             RunEnd::HarnessError(e) => { rep.harness_error(e.clone()); continue; }
-            RunEnd::StepLimit => { rep.inconclusive("step limit"); continue; }
+            RunEnd::StepLimit => { rep.inconclusive("step limit or temp-file I/O error of the environment"); continue; }
             _ => {}
         }
         if o.nontrivial {
